@@ -24,6 +24,7 @@ ORACLES = {
     "C02": ["oracle_c02"],
     "C08": ["oracle_c08", "c08_"],
     "C09": ["oracle_c09"],
+    "C10": ["oracle_c10", "c10_"],
     "C11": ["oracle_c11", "c11_"],
     "C13": ["c13_"],
     "C15": ["c15_"],
